@@ -59,8 +59,12 @@ func genC18(r *Rng, tier string, idx int) *Plan {
 				seq++
 				p.Ops = append(p.Ops, Op{Kind: "publish", C: pb, Args: []string{"PUBLISH", ch, fmt.Sprintf("p%d-%d", pb, seq)}})
 			}
-		case x < 92:
+		case x < 90:
 			p.Ops = append(p.Ops, Op{Kind: "deliver", N: int64(r.Range(1, 8))})
+		case x < 93:
+			// the subscriber's connection is closed by the client (or drops); later commands of that
+			// subscriber arrive on a new connection
+			p.Ops = append(p.Ops, Op{Kind: "disconnect", C: c})
 		default:
 			p.Ops = append(p.Ops, Op{Kind: "probe", N: int64(r.Intn(3))})
 		}
@@ -136,6 +140,18 @@ func runC18(t *testing.T, p *Plan) *Outcome {
 			}
 		}
 		probe := s.NewTCPClient(inst, "probe")
+		var ghosts []*c18Sub // subscriptions that connections held when they were closed
+		incarnation := make([]int, nsub)
+		// subscribers counted the way a server that forgets to drop closed connections would count them
+		withGhosts := func(f func(m *c18Sub) bool) int {
+			n := 0
+			for _, g := range ghosts {
+				if f(g) {
+					n++
+				}
+			}
+			return n
+		}
 		// pull whatever arrived on subscriber c into its frame stream
 		pull := func(c int) bool {
 			rest[c] = append(rest[c], subs[c].conn.Take()...)
@@ -163,8 +179,58 @@ func runC18(t *testing.T, p *Plan) *Outcome {
 			subs[c].conn.Write(EncodeCmd(args...))
 			s.Settle()
 		}
-		drainNow := false
 		strict := p.K("drain_each") == 1 && (Avoiding(p, "C18/reordered") || Avoiding(p, "C18/lost") || Avoiding(p, "C18/delivered-to-unsubscribed"))
+		// compare what connection c received with what its subscriptions had to receive (final: everything was
+		// drained; otherwise the connection is being closed and undelivered messages are legitimately lost)
+		compare := func(c int, final bool) {
+			if !pull(c) {
+				return
+			}
+			got := map[string]map[int][]string{} // subscription name -> publisher -> payloads
+			for _, f := range streams[c] {
+				if len(f.Elems) == 3 && f.Elems[0].Text() == "message" {
+					name, payload := f.Elems[1].Text(), f.Elems[2].Text()
+					pb := 0
+					fmt.Sscanf(payload, "p%d-", &pb)
+					if got[name] == nil {
+						got[name] = map[int][]string{}
+					}
+					got[name][pb] = append(got[name][pb], payload)
+				}
+			}
+			namesSeen := map[string]bool{}
+			for n := range got {
+				namesSeen[n] = true
+			}
+			for n := range expected[c] {
+				namesSeen[n] = true
+			}
+			for _, n := range keysOf(namesSeen) {
+				for pb := 0; pb < npub; pb++ {
+					var g, w []string
+					if got[n] != nil {
+						g = got[n][pb]
+					}
+					if expected[c][n] != nil {
+						w = expected[c][n].msgs[pb]
+					}
+					if equalStrings(g, w) {
+						continue
+					}
+					cls := classifyDelivery(g, w)
+					if !final && (cls == "lost" || cls == "reordered") {
+						continue // the connection was closed: messages still on their way to it are legitimately lost
+					}
+					if strict {
+						// every message was fully delivered before the next command ran: the asynchronous-delivery
+						// findings cannot explain this
+						cls = "strict/" + cls
+					}
+					fail(cls, fmt.Sprintf("connection %d, subscription %q, publisher %d: received %v, expected %v", c, n, pb, g, w))
+				}
+			}
+		}
+		drainNow := false
 		for i, op := range p.Ops {
 			if o.Sig != "" {
 				break
@@ -176,6 +242,30 @@ func runC18(t *testing.T, p *Plan) *Outcome {
 			switch op.Kind {
 			case "deliver":
 				deliver(int(op.N))
+			case "disconnect":
+				c := op.C % nsub
+				names = append(names, "disconnect")
+				compare(c, false)
+				if model[c].total() > 0 && Avoiding(p, "C18/stale-subscriber") {
+					// open finding: a closed connection stays subscribed. While it is open the client unsubscribes
+					// from everything before it closes, so that the rest of the history is still checked.
+					sendRaw(c, []string{"UNSUBSCRIBE"})
+					sendRaw(c, []string{"PUNSUBSCRIBE"})
+					model[c] = &c18Sub{chans: map[string]bool{}, pats: map[string]bool{}}
+					o.Skipped++
+				}
+				if model[c].total() > 0 {
+					ghosts = append(ghosts, model[c])
+					s.Probe("closed-with-subscriptions")
+				}
+				subs[c].Close()
+				s.Settle()
+				s.Stats.FaultsFired["connection-closed"]++
+				incarnation[c]++
+				subs[c] = s.NewTCPClient(inst, fmt.Sprintf("s%d.%d", c, incarnation[c]))
+				model[c] = &c18Sub{chans: map[string]bool{}, pats: map[string]bool{}}
+				expected[c] = map[string]*c18Expect{}
+				streams[c], rest[c] = nil, nil
 			case "publish":
 				pb := op.C % npub
 				names = append(names, "PUBLISH")
@@ -242,6 +332,20 @@ func runC18(t *testing.T, p *Plan) *Outcome {
 					for _, e := range r.Reply.Elems {
 						got[e.Text()] = true
 					}
+					if !r.IsError() && !sameSet(got, want) && len(ghosts) > 0 {
+						stale := map[string]bool{}
+						for ch := range want {
+							stale[ch] = true
+						}
+						for _, g := range ghosts {
+							for ch := range g.chans {
+								stale[ch] = true
+							}
+						}
+						if sameSet(got, stale) {
+							fail("stale-subscriber", fmt.Sprintf("op %d PUBSUB CHANNELS = %s lists channels whose only subscribers are connections that were closed; active channels are %v", i, r, keysOf(want)))
+						}
+					}
 					if r.IsError() || !sameSet(got, want) {
 						fail("introspection:CHANNELS", fmt.Sprintf("op %d PUBSUB CHANNELS = %s, active channels are %v", i, r, keysOf(want)))
 					}
@@ -255,6 +359,10 @@ func runC18(t *testing.T, p *Plan) *Outcome {
 								n++
 							}
 						}
+						if stale := n + withGhosts(func(m *c18Sub) bool { return m.chans[ch] }); stale != n && !r.IsError() && len(flat) == 2*len(c18Channels) && flat[2*k+1].Text() == strconv.Itoa(stale) {
+							fail("stale-subscriber", fmt.Sprintf("op %d PUBSUB NUMSUB %v = %s counts %d subscribers of %s, but only %d of them are still connected", i, c18Channels, r, stale, ch, n))
+							break
+						}
 						if r.IsError() || len(flat) != 2*len(c18Channels) || flat[2*k].Text() != ch || flat[2*k+1].Text() != strconv.Itoa(n) {
 							fail("introspection:NUMSUB", fmt.Sprintf("op %d PUBSUB NUMSUB %v = %s, %s has %d subscribers", i, c18Channels, r, ch, n))
 							break
@@ -266,6 +374,20 @@ func runC18(t *testing.T, p *Plan) *Outcome {
 					for c := 0; c < nsub; c++ {
 						for pt := range model[c].pats {
 							pats[pt] = true
+						}
+					}
+					if len(ghosts) > 0 {
+						stale := map[string]bool{}
+						for pt := range pats {
+							stale[pt] = true
+						}
+						for _, g := range ghosts {
+							for pt := range g.pats {
+								stale[pt] = true
+							}
+						}
+						if got, ok := intReply(r); ok && got != int64(len(pats)) && got == int64(len(stale)) {
+							fail("stale-subscriber", fmt.Sprintf("op %d PUBSUB NUMPAT = %s counts patterns whose only subscribers are connections that were closed (%d patterns have connected subscribers)", i, r, len(pats)))
 						}
 					}
 					if got, ok := intReply(r); !ok || got != int64(len(pats)) {
@@ -392,49 +514,7 @@ func runC18(t *testing.T, p *Plan) *Outcome {
 				s.Release(tk)
 			}
 			for c := 0; c < nsub && o.Sig == ""; c++ {
-				if !pull(c) {
-					break
-				}
-				got := map[string]map[int][]string{} // subscription name -> publisher -> payloads
-				for _, f := range streams[c] {
-					if len(f.Elems) == 3 && f.Elems[0].Text() == "message" {
-						name, payload := f.Elems[1].Text(), f.Elems[2].Text()
-						pb := 0
-						fmt.Sscanf(payload, "p%d-", &pb)
-						if got[name] == nil {
-							got[name] = map[int][]string{}
-						}
-						got[name][pb] = append(got[name][pb], payload)
-					}
-				}
-				namesSeen := map[string]bool{}
-				for n := range got {
-					namesSeen[n] = true
-				}
-				for n := range expected[c] {
-					namesSeen[n] = true
-				}
-				for _, n := range keysOf(namesSeen) {
-					for pb := 0; pb < npub; pb++ {
-						var g, w []string
-						if got[n] != nil {
-							g = got[n][pb]
-						}
-						if expected[c][n] != nil {
-							w = expected[c][n].msgs[pb]
-						}
-						if equalStrings(g, w) {
-							continue
-						}
-						cls := classifyDelivery(g, w)
-						if strict {
-							// every message was fully delivered before the next command ran: the asynchronous-delivery
-							// findings cannot explain this
-							cls = "strict/" + cls
-						}
-						fail(cls, fmt.Sprintf("connection %d, subscription %q, publisher %d: received %v, expected %v", c, n, pb, g, w))
-					}
-				}
+				compare(c, true)
 			}
 		}
 		o.Stats = s.Stats
